@@ -115,7 +115,8 @@ def gen_case(rng, kind="valid"):
     """kind: valid | plain (plain delay next to a spread: its delay is dropped) | dde (dde_approx without spread under a fixed step)
              | kernel (dde_approx > 0 turns an undelayed edge on a buffered source into a kernel)
              | shared (vectorized, single-unit source, two slots in one chain: IndexError)
-             | perm (vectorized, a chain over all units of the source vector in another order: sources swapped)"""
+             | chains (valid: vectorized, several slots per chain, several chains on one source vector)
+             | perm (valid since fix D45: vectorized, a chain over all units of the source vector in another order: sources swapped)"""
     for _ in range(200):
         ns = rng.randint(1, 3); nt = rng.randint(1, 3)
         kinds = ["s"] * ns + ["t"] * nt
@@ -175,6 +176,20 @@ def gen_case(rng, kind="valid"):
                 continue
         if kind == "kernel" and not any(e[3] == "nokey" for e in edges):
             continue
+        if kind == "chains":
+            # vectorized, >= 2 source units of one class, slots written A, .., A, B, .., B[, C..]: an earlier chain holds >= 2 slots
+            # before a chain with another (order, rate) starts (the chain's rate is the rate of ITS first slot)
+            vec = True
+            su = [i for i in S if nodes[i]["cls"] == nodes[S[0]]["cls"]]
+            if len(su) < 2:
+                continue
+            groups = rng.sample(pp, min(len(pp), rng.randint(2, 3)))
+            if len({(n, Fr(n) / d) for d, sp, n in groups}) < len(groups):
+                continue
+            edges = []
+            for gi, (d, sp, n) in enumerate(groups):
+                for _ in range(rng.randint(2, 3) if gi == 0 else rng.randint(1, 2)):
+                    edges.append([rng.choice(su), rng.choice(T), str(Fr(rng.choice([-3, -2, -1, 1, 2, 3]), 2)), [str(d), str(sp)]])
         if kind == "perm":
             # two units of one class, the edge from the later unit written first, same (d, s): one chain over the whole vector
             vec = True
@@ -200,7 +215,7 @@ def nontrivial(case):
     return len({tuple(e[3]) for e in case["edges"] if e[3] != "nokey" and len(e[3]) == 2}) >= 2
 
 # ---------------------------------------------------------------------------------------------- model side
-GUARDS = ["g_all_spread", "g_no_undelayed_kernel", "g_above_step", "g_rates_exact", "g_own_source", "g_no_scalar_shared_chain", "g_contiguous_chains"]
+GUARDS = ["g_all_spread", "g_no_undelayed_kernel", "g_above_step", "g_rates_exact", "g_no_scalar_shared_chain", "g_contiguous_chains"]
 HEADER = """From Coq Require Import List ZArith QArith Qcanon Bool Arith.
 From PV Require Import Ring Gamma Corr.
 Import ListNotations.
@@ -281,6 +296,7 @@ def check(ctx):
     else:
         cases = [c["case"] if "case" in c else c for c in load_corpus("C11")]
         cases += [gen_case(ctx.rng, "valid") for _ in range(n_valid)]
+        cases += [gen_case(ctx.rng, "chains") for _ in range(n_valid // 5)]
         for kind in ("plain", "dde", "kernel", "shared", "perm"):
             cases += [gen_case(ctx.rng, kind) for _ in range(n_viol)]
     outs = run_impl(ctx, "c11", "impl", cases, per_case_timeout=120)
